@@ -297,7 +297,7 @@ class Apply(Suite):
     name = "apply"
     go_cmd = "c06"
     coq_imports = "From GoGit Require Import Model.Delta Spec.GitDelta."
-    quick_n = 160
+    quick_n = 130
     thorough_n = 1200
     coq_chunk = 50
 
